@@ -241,11 +241,11 @@ def check(tier):
     cov = runner.mc_coverage(
         total, functions=["kio.records.writers.write_new_batch/write_batch/write_record/write_header/write_signed_compact_bytes/_write_batch_pre_checksum/_write_batch_post_checksum",
                           "kio.serial.writers.write_int*/write_uint32/write_signed_varint/write_signed_varlong (unstubbed in the layout harness)"],
-        bounds={"records": opts["ns"], "headers_per_record": "0..%d" % opts["max_headers"], "key_value_header_lengths": [list(r) for r in opts["regions"]],
+        bounds={"records": opts["ns"], "headers_per_record": "0..%d symbolic, and 64 tiny concrete ones on the first record" % opts["max_headers"], "key_value_header_lengths": [list(r) for r in opts["regions"]],
                 "offsets": "first offset over int64 minus a 2^33 margin, every other offset within int32 of it (the representable deltas)",
                 "timestamps": "layout harness: five representative instants per record (shape variable); R-mode lemma: every microsecond instant from the epoch to 9999-12-31 (UTC) for 1..3 records", "scalars": "attributes, producer id/epoch, base sequence, leader epoch over their full ranges",
                 "shape_deviation_depth": opts["max_dev"], "crc": "uninterpreted fold (A6); real library only in the concrete trace validations"},
-        outside=["more than %d records, more than %d headers" % (max(opts["ns"]), opts["max_headers"]), "non-UTC tzinfo on record timestamps", "the CRC polynomial itself (trusted library; validated on vectors in selftest)"],
+        outside=["more than %d records, header counts other than 0..%d and 64" % (max(opts["ns"]), opts["max_headers"]), "non-UTC tzinfo on record timestamps", "the CRC polynomial itself (trusted library; validated on vectors in selftest)"],
         rule="one state = one completed symbolic path of write_new_batch/write_batch for one (record count, shape)",
         extra={"layout_runs": rows, "timestamp_lemmas_rmode": lrows, "trace_validations_with_independent_decoder": validated})
     cov["traces_validated_against_impl"] = validated
